@@ -1,7 +1,7 @@
 (* C06 — with room to spare the cache is a faithful map; Wait makes writes visible.  Statements only. *)
 From stdpp Require Import gmap.
 From Ristretto Require Import Base.Word Cache.Policy Cache.PolicyProofs Cache.Store Cache.Machine Cache.MachineProofs
-  Cache.SyncProofs Cache.DelProofs Cache.RoomProofs Cache.FaithProofs.
+  Cache.SyncProofs Cache.DelProofs Cache.WaitProofs Cache.RoomProofs Cache.FaithProofs.
 Local Open Scope Z_scope.
 
 (* "Room to spare": every key comes from a finite set K, every effective cost (cost, or Config.Cost(value) when 0,
@@ -63,9 +63,24 @@ Theorem C06_visible_after_wait :
   s_log s5 = ERet tg (OGet k c) (RVal v true) :: ECall tg (OGet k c) (s_now s4) :: s_log s4.
 Proof. exact faithful. Qed.
 
-(* Wait returns only after everything buffered before it has left the queue: its marker travels through the same
-   FIFO, and while the Wait has not returned the marker is still ahead of everything sent later (the invariant used
-   above, stated on its own: it is preserved by every step) *)
+(* "Wait() returns only after every write buffered before it has been applied."  V = the value identifiers of those
+   writes: no goroutine is about to send a record carrying one of them when the Wait's marker is sent, and no later
+   Set uses one.  Then, for every schedule without Clear / Close, once that Wait has returned none of these records
+   is in the write buffer or in the applier's hands: each has been taken out of the FIFO and processed by the applier.
+   [later V i]: the record i carries no value of V. *)
+Theorem C06_wait_drains : forall c maxCost bdur now0 mon (V : gset N) sched0 tw o s1 sched,
+  0%N ∉ V -> Forall lab_nc sched0 ->
+  let s0 := mrun c (init_state maxCost bdur now0 mon) sched0 in
+  thr_later V (s_threads s0) ->
+  t_op (get_thread s0 tw) = Some o -> t_pend (get_thread s0 tw) = [] -> t_pc (get_thread s0 tw) = CWaitSend ->
+  mstep c s0 (LStep tw) = Some s1 ->
+  Forall (lab_v V) sched ->
+  let s2 := mrun c s1 sched in
+  t_op (get_thread s2 tw) = None ->
+  Forall (later V) (held (s_apc s2) ++ s_buf s2).
+Proof. exact wait_drains. Qed.
+
+(* the marker invariant behind C06_visible_after_wait, preserved by every step *)
 Theorem C06_wait_fifo : forall cf K B k c v e tw id s l s',
   lab_f k l -> lab_room cf K B l -> FW cf K B k c v e tw id s -> mstep cf s l = Some s' -> FW cf K B k c v e tw id s'.
 Proof. exact step_FW. Qed.
